@@ -129,3 +129,29 @@ pub fn order_type(values: &[i64]) -> String {
 pub fn char_slice(text: &str, b: usize, e: usize) -> String {
     text.chars().skip(b).take(e.saturating_sub(b)).collect()
 }
+
+/// Base directory for scratch files written at run time: a memory-backed directory when the system has one (the
+/// checks that save and load files do so hundreds of thousands of times), else /verif/.work. Nothing in it outlives a run.
+pub fn work_base() -> String {
+    use std::sync::OnceLock;
+    static BASE: OnceLock<String> = OnceLock::new();
+    BASE.get_or_init(|| {
+        let shm = "/dev/shm/verif-work";
+        if std::fs::create_dir_all(shm).is_ok() && std::fs::write(format!("{}/.probe-{}", shm, std::process::id()), b"x").is_ok() {
+            let _ = std::fs::remove_file(format!("{}/.probe-{}", shm, std::process::id()));
+            shm.to_string()
+        } else {
+            let _ = std::fs::create_dir_all("/verif/.work");
+            "/verif/.work".to_string()
+        }
+    })
+    .clone()
+}
+
+/// A private scratch directory name for this process. Its length is the same whatever the base directory and the
+/// process id (serialisations embed the path: position-dependent failure classes must not move with it).
+pub fn work_dir(tag: &str) -> String {
+    let head = format!("{}/{}-", work_base(), tag);
+    let width = 44usize.saturating_sub(head.len()).max(10);
+    format!("{}{:0width$}", head, std::process::id(), width = width)
+}
